@@ -7,6 +7,7 @@ pub mod dump;
 pub mod gen;
 pub mod indep;
 pub mod isolate;
+pub mod mmapfail;
 pub mod packs;
 pub mod report;
 pub mod shard;
